@@ -28,7 +28,7 @@ def plan(tier, seed):
         out.append({'fam': 'generic', 's': seed, 'p': NUM, 'i': i,
                     'k': {'big': i % 9 == 0, 'rich': i % 2 == 0}})
     j = 0
-    for T in range(1, TMAX[tier] + 1):
+    for T in list(range(1, TMAX[tier] + 1)) + ([16, 32] if tier == 'quick' else [48, 64, 80]):   # 16 | T: exact half-okta ties
         for o0 in (0, 1, 3):
             for h8 in (0, 1, 2):
                 out.append({'fam': 'ct', 'T': T, 'o0': o0, 'h8': h8, 's': seed, 'p': NUM, 'i': 500000 + j})
